@@ -195,6 +195,37 @@ func (o *obs) genSign(budget int) {
 		o.signCase("sign:tiny-offset-from-zero-coordinate", a, b, c)
 	}
 	o.searchOnly = false
+	// two points whose SQUARED distance is a non-zero denormal (separation 1e-165..1e-150 in a
+	// coordinate that is 0 in one of them) and a third point almost on their great circle at
+	// 0.05..1 rad: |e1|^2*|e2|^2 underflows to 0 although no factor is 0
+	for i := 0; i < 5000*budget; i++ {
+		o.searchOnly = i >= 40*budget
+		b := norm(r3.Vector{X: 0, Y: rng.Range(-1, 1), Z: rng.Range(-1, 1)})
+		t := o.logU(1e-165, 1e-150)
+		if rng.Intn(3) != 0 {
+			t = rng.Range(1.6e-162, 6e-162) // squared separation = a few units of the smallest denormal
+		}
+		if rng.Bool() {
+			t = -t
+		}
+		c := pt(t, b.Y, b.Z)
+		th := rng.Range(0.05, 1)
+		if rng.Intn(3) != 0 {
+			th = rng.Range(0.2, 0.6)
+		}
+		if rng.Bool() {
+			th = -th
+		}
+		// on the great circle through b and c (spanned by b and the x axis), then a few ulps off
+		a := norm(r3.Vector{X: math.Sin(th), Y: math.Cos(th) * b.Y, Z: math.Cos(th) * b.Z})
+		if rng.Bool() {
+			a = ulpsPt(a, rng.Intn(3)-1, rng.Intn(3)-1, rng.Intn(3)-1)
+		}
+		sym := o.cubeSym()
+		a, b, c = o.shuffle3(sym(a), sym(b), sym(c))
+		o.signCase("sign:denormal-squared-separation", a, b, c)
+	}
+	o.searchOnly = false
 	// identical, +-0, antipodal
 	for i := 0; i < 12*budget; i++ {
 		a, b := o.randUnit(), o.randUnit()
@@ -504,5 +535,110 @@ func (o *obs) genDot(budget int) {
 		sym := o.cubeSym()
 		o.dotCase("dot:exactly-orthogonal", sym(pt(c, s, 0)), sym(pt(-s, c, 0)))
 		o.dotCase("dot:exactly-orthogonal", sym(pt(c, s, 0)), sym(pt(0, 0, 1)))
+	}
+}
+
+// a pair (x, y) at one of the angles where the dispatchers change method
+func (o *obs) pairAt(kind int) (s2.Point, s2.Point, string) {
+	rng := o.rng
+	x := o.randUnit()
+	switch kind {
+	case 0: // nearly identical, 1e-100 .. 0.8 rad
+		phi := o.logU(1e-100, 0.8)
+		if phi < 1e-7 {
+			sym := o.cubeSym()
+			return sym(pt(1, 0, 0)), sym(pt(1, phi, 0)), "near-0"
+		}
+		return x, o.near(x, phi), "near-0"
+	case 1: // nearly antipodal: y within 1e-100 .. 0.8 rad of -x
+		phi := o.logU(1e-100, 0.8)
+		if phi < 1e-7 {
+			sym := o.cubeSym()
+			return sym(pt(1, 0, 0)), sym(pt(-1, phi, 0)), "near-180"
+		}
+		return x, o.near(x, math.Pi-phi), "near-180"
+	case 2:
+		return x, o.near(x, math.Pi/2+[]float64{0, 1e-9, -1e-9, 0.05, -0.05}[rng.Intn(5)]*rng.Float()), "near-90"
+	case 3:
+		return x, o.near(x, math.Pi/4+[]float64{0, 1e-10, -1e-10, 0.05, -0.05}[rng.Intn(5)]*rng.Float()), "near-45"
+	case 4:
+		return x, o.near(x, 3*math.Pi/4+[]float64{0, 1e-10, -1e-10, 0.05, -0.05}[rng.Intn(5)]*rng.Float()), "near-135"
+	}
+	return x, o.randUnit(), "random"
+}
+
+// a limit (squared chord length) in one of the ranges where CompareDistance changes method
+func (o *obs) limitAt(kind int, d2 float64) (float64, string) {
+	rng := o.rng
+	ca45 := s2.VerifC02Ca45Degrees()
+	switch kind {
+	case 0: // small limits, 1e-100 rad .. 45 degrees
+		rho := o.logU(1e-100, 0.78)
+		s := math.Sin(rho / 2)
+		return 4 * s * s, "limit<45deg"
+	case 1:
+		return vkit.Ulps(ca45, rng.Intn(9)-4) + []float64{0, 1e-3, -1e-3}[rng.Intn(3)]*rng.Float(), "limit~45deg"
+	case 2:
+		return 2 + []float64{0, 1e-9, -1e-9, 0.3, -0.3}[rng.Intn(5)]*rng.Float(), "limit~90deg"
+	case 3:
+		return 4 - o.logU(1e-16, 1), "limit~180deg"
+	case 4:
+		r := vkit.Ulps(d2, rng.Intn(9)-4)
+		if r < 0 {
+			r = 0
+		}
+		return r, "limit=chord^2+-ulps"
+	}
+	return rng.Range(0, 4), "limit-random"
+}
+
+// every pair family against every limit family (CompareDistance)
+func (o *obs) genDistanceGrid(budget int) {
+	for pk := 0; pk < 6; pk++ {
+		for lk := 0; lk < 6; lk++ {
+			for i := 0; i < 12*budget; i++ {
+				x, y, pn := o.pairAt(pk)
+				r2, ln := o.limitAt(lk, x.Sub(y.Vector).Norm2())
+				o.distanceCase("cd1:"+pn+"/"+ln, x, y, r2)
+			}
+		}
+	}
+}
+
+// CompareDistances at the dispatcher thresholds: a at one of the special angles from x, b at
+// nearly the same distance (a few ulps, a tiny relative change of the angle, or on the other side
+// of the threshold), including both near the antipode of x where sin^2 decreases
+func (o *obs) genDistancesGrid(budget int) {
+	rng := o.rng
+	for pk := 0; pk < 6; pk++ {
+		for i := 0; i < 40*budget; i++ {
+			x, a, pn := o.pairAt(pk)
+			var b s2.Point
+			switch rng.Intn(4) {
+			case 0:
+				b = ulpsPt(a, rng.Intn(5)-2, rng.Intn(5)-2, rng.Intn(5)-2)
+			case 1: // another point at (almost) the same angle from x
+				_, b, _ = o.pairAt(pk)
+				if pk <= 1 {
+					// keep the same x for the axis-aligned tiny-angle constructions
+					ang := x.Angle(a.Vector).Radians()
+					if ang > 1e-6 && math.Pi-ang > 1e-6 {
+						b = o.near(x, ang*(1+rng.Range(-1e-9, 1e-9)))
+					} else {
+						b = ulpsPt(a, rng.Intn(3)-1, rng.Intn(3)-1, rng.Intn(3)-1)
+					}
+				} else {
+					b = o.near(x, x.Angle(a.Vector).Radians()+rng.Range(-1e-9, 1e-9))
+				}
+			case 2:
+				b = o.near(x, x.Angle(a.Vector).Radians()*(1+rng.Range(-0.3, 0.3)))
+			default:
+				b = o.randUnit()
+			}
+			if rng.Bool() {
+				a, b = b, a
+			}
+			o.distancesCase("cd:"+pn, x, a, b)
+		}
 	}
 }
